@@ -5,8 +5,7 @@ import EvermintModel.Properties.C06
 The transient per-block bookkeeping (`txCount`, per-tx gas, per-tx log count) is an invariant-
 carrying state; the theorems hold for every block content: any number and order of Ethereum
 transactions of every outcome class (Cosmos transactions do not touch this bookkeeping).
-Bloom filters are not modelled in Lean: "a receipt's bloom covers exactly its own logs" and
-"the block bloom is their union" are checked by E-block on the real receipts (labelled: tested).
+Bloom filters: see `Properties/C13Bloom.lean` (model `Model/Bloom.lean`).
 -/
 namespace Evermint.Block
 
